@@ -19,7 +19,7 @@ Proof. intros (o & ->) (r & ->). unfold or_else. cbn [bind]. destruct o; eauto. 
 Lemma win_stage4_ok w m h t : exists r, win_stage4 w m h t = Ok r.
 Proof.
   unfold win_stage4. destruct (0 <? m); [|eauto].
-  destruct (0 <? h); (apply or_else_ok; [apply check_div_ok|eauto]).
+  destruct (0 <? h); [destruct (m + h <=? u16_max); [|eauto]|]; (apply or_else_ok; [apply check_div_ok|eauto]).
 Qed.
 
 Lemma win_stage3_ok w m h ts v6 : exists r, win_stage3 w m h ts v6 = Ok r.
@@ -69,7 +69,7 @@ Lemma visit_tcp_v4_returns flags window ihl doff opts :
   visit_tcp_v4 flags window ihl doff opts = Err \/ exists s, visit_tcp_v4 flags window ihl doff opts = Ok s.
 Proof.
   unfold visit_tcp_v4. destruct (visit_opts_returns flags opts) as [E|(st & E)]; rewrite E; cbn [bind]; [left; reflexivity|right].
-  destruct (detect_win_ok window (match os_mss st with Some m => m | None => 0 end) ihl (has_ts st) false) as (w & Ew).
+  destruct (detect_win_ok window (match os_mss st with Some m => m | None => 0 end) 40 (has_ts st) false) as (w & Ew).
   rewrite Ew. cbn [bind]. eauto.
 Qed.
 Lemma visit_tcp_v4_nopanic flags window ihl doff opts : visit_tcp_v4 flags window ihl doff opts <> Panic.
